@@ -66,7 +66,6 @@ type c03Job struct {
 	content string
 	ehints  map[gozxing.EncodeHintType]interface{}
 	reads   []c03Read
-	defMarg int
 }
 
 // c03Read is one reader that must return want (or one of the alternatives).
@@ -87,10 +86,10 @@ type c03Read struct {
 type c03Size struct {
 	mode   string // "w0", "natural", "plus", "x2".."x6"
 	height int
-	margin int // -1: no hint
+	margin int // -1: no MARGIN hint; k >= 0: MARGIN = the writer's default margin + k
 }
 
-func c03RandSize(rng *fw.Rand, defMargin int) c03Size {
+func c03RandSize(rng *fw.Rand) c03Size {
 	var s c03Size
 	switch k := rng.Intn(10); {
 	case k < 2:
@@ -115,9 +114,9 @@ func c03RandSize(rng *fw.Rand, defMargin int) c03Size {
 	s.margin = -1
 	switch k := rng.Intn(10); {
 	case k < 2:
-		s.margin = defMargin
+		s.margin = 0
 	case k < 5:
-		s.margin = defMargin + 1 + rng.Intn(40)
+		s.margin = 1 + rng.Intn(40)
 	}
 	return s
 }
@@ -127,19 +126,30 @@ func (e *c03Env) c03Do(job *c03Job, sz c03Size) bool {
 	r := e.r
 	w := e.writer(job.wname, job.mkW)
 	hints := job.ehints
+	data := map[string]interface{}{"symbology": job.sym, "content": odQuote(job.content), "size": fmt.Sprintf("%+v", sz), "encode_hints": fmt.Sprint(job.ehints)}
 	if sz.margin >= 0 {
+		// the writer's default margin: width it chooses by itself minus the bars it drew
+		md, err := w.Encode(job.content, job.format, 0, 1, hints)
+		r.Evals(1)
+		if err != nil || md == nil {
+			e.viol(job.sym+".write:rejects-acceptable-content", fmt.Sprintf("%s writer refused %s (hints %v): %v", job.sym, odQuote(job.content), job.ehints, err), data)
+			return false
+		}
+		def := md.GetWidth() - len(odTrim(odMatrixRow(md, 0)))
+		margin := def + sz.margin
+		data["default_margin"] = def
+		data["margin"] = margin
 		h2 := map[gozxing.EncodeHintType]interface{}{}
 		for k, v := range hints {
 			h2[k] = v
 		}
-		if sz.margin%3 == 0 {
-			h2[gozxing.EncodeHintType_MARGIN] = fmt.Sprint(sz.margin) // the writer documents int and string
+		if margin%3 == 0 {
+			h2[gozxing.EncodeHintType_MARGIN] = fmt.Sprint(margin) // the writer takes int and decimal string
 		} else {
-			h2[gozxing.EncodeHintType_MARGIN] = sz.margin
+			h2[gozxing.EncodeHintType_MARGIN] = margin
 		}
 		hints = h2
 	}
-	data := map[string]interface{}{"symbology": job.sym, "content": odQuote(job.content), "size": fmt.Sprintf("%+v", sz), "encode_hints": fmt.Sprint(job.ehints)}
 	// natural width: what the writer produces when asked for width 0
 	m0, err := w.Encode(job.content, job.format, 0, sz.height, hints)
 	r.Evals(1)
@@ -235,7 +245,7 @@ func c03UPCEANJob(s *odUPCEAN, payload string, withCheck bool, multi bool) *c03J
 		content = full
 		form = fmt.Sprint(s.payload + 1)
 	}
-	job := &c03Job{sym: s.name + form, format: s.format, mkW: s.writer, wname: s.name, content: content, defMarg: 9}
+	job := &c03Job{sym: s.name + form, format: s.format, mkW: s.writer, wname: s.name, content: content}
 	job.reads = append(job.reads, c03Read{label: "reader", rname: s.name, mk: s.reader, want: full, format: s.format})
 	if multi {
 		pf := map[gozxing.DecodeHintType]interface{}{gozxing.DecodeHintType_POSSIBLE_FORMATS: []gozxing.BarcodeFormat{s.format}}
@@ -261,7 +271,7 @@ func c03Code39Ext() gozxing.Reader   { return oned.NewCode39ReaderWithFlags(fals
 // c03Code39Job: content inside the 43-character alphabet is read with the plain
 // reader, anything else with the extended (full ASCII) reader.
 func c03Code39Job(content string) *c03Job {
-	job := &c03Job{format: gozxing.BarcodeFormat_CODE_39, mkW: oned.NewCode39Writer, wname: "code39", content: content, defMarg: 10}
+	job := &c03Job{format: gozxing.BarcodeFormat_CODE_39, mkW: oned.NewCode39Writer, wname: "code39", content: content}
 	if odIn(c03Code39Alphabet, content) {
 		job.sym = "code39"
 		job.reads = []c03Read{{label: "reader", rname: "code39", mk: c03Code39Plain, want: content, format: gozxing.BarcodeFormat_CODE_39}}
@@ -273,12 +283,12 @@ func c03Code39Job(content string) *c03Job {
 }
 
 func c03Code93Job(content string) *c03Job {
-	return &c03Job{sym: "code93", format: gozxing.BarcodeFormat_CODE_93, mkW: oned.NewCode93Writer, wname: "code93", content: content, defMarg: 10,
+	return &c03Job{sym: "code93", format: gozxing.BarcodeFormat_CODE_93, mkW: oned.NewCode93Writer, wname: "code93", content: content,
 		reads: []c03Read{{label: "reader", rname: "code93", mk: oned.NewCode93Reader, want: content, format: gozxing.BarcodeFormat_CODE_93}}}
 }
 
 func c03Code128Job(content string, force string) *c03Job {
-	job := &c03Job{sym: "code128auto", format: gozxing.BarcodeFormat_CODE_128, mkW: oned.NewCode128Writer, wname: "code128", content: content, defMarg: 10,
+	job := &c03Job{sym: "code128auto", format: gozxing.BarcodeFormat_CODE_128, mkW: oned.NewCode128Writer, wname: "code128", content: content,
 		reads: []c03Read{{label: "reader", rname: "code128", mk: oned.NewCode128Reader, want: content, format: gozxing.BarcodeFormat_CODE_128}}}
 	if force != "" {
 		job.sym = "code128force" + force
@@ -288,7 +298,7 @@ func c03Code128Job(content string, force string) *c03Job {
 }
 
 func c03ITFJob(content string) *c03Job {
-	return &c03Job{sym: "itf", format: gozxing.BarcodeFormat_ITF, mkW: oned.NewITFWriter, wname: "itf", content: content, defMarg: 10,
+	return &c03Job{sym: "itf", format: gozxing.BarcodeFormat_ITF, mkW: oned.NewITFWriter, wname: "itf", content: content,
 		reads: []c03Read{{label: "reader", rname: "itf", mk: oned.NewITFReader, want: content, format: gozxing.BarcodeFormat_ITF}}}
 }
 
@@ -307,7 +317,7 @@ func c03CodabarJob(start byte, data string, stop byte) *c03Job {
 		sym = "codabar+guards"
 		cs, ce = odCodabarGuardCanon(start), odCodabarGuardCanon(stop)
 	}
-	return &c03Job{sym: sym, format: gozxing.BarcodeFormat_CODABAR, mkW: oned.NewCodaBarWriter, wname: "codabar", content: content, defMarg: 10,
+	return &c03Job{sym: sym, format: gozxing.BarcodeFormat_CODABAR, mkW: oned.NewCodaBarWriter, wname: "codabar", content: content,
 		reads: []c03Read{
 			{label: "reader", rname: "codabar", mk: oned.NewCodaBarReader, want: data, format: gozxing.BarcodeFormat_CODABAR},
 			{label: "reader+startend", rname: "codabar", mk: oned.NewCodaBarReader, hints: map[gozxing.DecodeHintType]interface{}{gozxing.DecodeHintType_RETURN_CODABAR_START_END: true},
@@ -802,18 +812,10 @@ func c03Sweep(r *fw.Rec, s *odUPCEAN, lo, hi, sample int) {
 	}
 	r.Evals(int64(2 * n))
 	r.TallyN("sweep_"+s.name+"_payloads_read_back", int64(n))
-	r.NontrivialH(hash64s(fmt.Sprintf("sweep/%s/%d/%d", s.name, lo, sample)))
+	r.NontrivialH(odHash(fmt.Sprintf("sweep/%s/%d/%d", s.name, lo, sample)))
 	if lo == 0 {
 		r.Sample(map[string]interface{}{"kind": "sweep", "symbology": s.name, "payloads": fmt.Sprintf("%s..%s", odPad(lo, s.payload), odPad(hi-1, s.payload)), "sampled": sample, "height": 1, "forms": "short form, every 8th with check digit; every 4th also through the multi-format reader"})
 	}
-}
-
-func hash64s(s string) uint64 {
-	h := uint64(1469598103934665603)
-	for i := 0; i < len(s); i++ {
-		h = (h ^ uint64(s[i])) * 1099511628211
-	}
-	return h
 }
 
 // ---------------------------------------------------------------------------
@@ -840,11 +842,11 @@ func c03(c *fw.Ctx) {
 					payload := s.randPayload(r.Rng)
 					withCheck := r.Rng.Bool()
 					job := c03UPCEANJob(s, payload, withCheck, true)
-					sz := c03RandSize(r.Rng, 9)
+					sz := c03RandSize(r.Rng)
 					if !e.c03Do(job, sz) {
 						return
 					}
-					r.NontrivialH(hash64s(job.sym + "|" + job.content + "|" + fmt.Sprint(sz)))
+					r.NontrivialH(odHash(job.sym + "|" + job.content + "|" + fmt.Sprint(sz)))
 				}
 				if i == 0 && s == odUPCE {
 					p := s.randPayload(r.Rng)
@@ -866,11 +868,11 @@ func c03(c *fw.Ctx) {
 					content = c03Code39ExtContent(r.Rng)
 				}
 				job := c03Code39Job(content)
-				sz := c03RandSize(r.Rng, 10)
+				sz := c03RandSize(r.Rng)
 				if !e.c03Do(job, sz) {
 					return
 				}
-				r.NontrivialH(hash64s(job.sym + "|" + content + "|" + fmt.Sprint(sz)))
+				r.NontrivialH(odHash(job.sym + "|" + content + "|" + fmt.Sprint(sz)))
 			}
 			if i == 0 {
 				s := c03Code39ExtContent(r.Rng)
@@ -886,11 +888,11 @@ func c03(c *fw.Ctx) {
 			for k := 0; k < per; k++ {
 				content := c03Code93Content(r.Rng)
 				job := c03Code93Job(content)
-				sz := c03RandSize(r.Rng, 10)
+				sz := c03RandSize(r.Rng)
 				if !e.c03Do(job, sz) {
 					return
 				}
-				r.NontrivialH(hash64s(job.sym + "|" + content + "|" + fmt.Sprint(sz)))
+				r.NontrivialH(odHash(job.sym + "|" + content + "|" + fmt.Sprint(sz)))
 			}
 		})
 	}
@@ -917,14 +919,14 @@ func c03(c *fw.Ctx) {
 						content = odDigits(r.Rng, 2*(1+r.Rng.Intn(40)))
 					}
 					job := c03Code128Job(content, force)
-					sz := c03RandSize(r.Rng, 10)
+					sz := c03RandSize(r.Rng)
 					if force == "B" && strings.IndexByte(content, ' ') >= 0 {
 						r.Tally("code128_forced_B_contents_with_space")
 					}
 					if !e.c03Do(job, sz) {
 						return
 					}
-					r.NontrivialH(hash64s(job.sym + "|" + content + "|" + fmt.Sprint(sz)))
+					r.NontrivialH(odHash(job.sym + "|" + content + "|" + fmt.Sprint(sz)))
 				}
 				if i == 0 && force == "" {
 					s := c03Code128Auto(r.Rng)
@@ -946,11 +948,11 @@ func c03(c *fw.Ctx) {
 						content = strings.Repeat("0", n)
 					}
 					job := c03ITFJob(content)
-					sz := c03RandSize(r.Rng, 10)
+					sz := c03RandSize(r.Rng)
 					if !e.c03Do(job, sz) {
 						return
 					}
-					r.NontrivialH(hash64s("itf|" + content + "|" + fmt.Sprint(sz)))
+					r.NontrivialH(odHash("itf|" + content + "|" + fmt.Sprint(sz)))
 				}
 				r.Tally(fmt.Sprintf("itf_lengths_covered_%02d", n))
 			})
@@ -1009,11 +1011,11 @@ func c03(c *fw.Ctx) {
 					}
 					job = c03CodabarJob(a, data, b)
 				}
-				sz := c03RandSize(r.Rng, 10)
+				sz := c03RandSize(r.Rng)
 				if !e.c03Do(job, sz) {
 					return
 				}
-				r.NontrivialH(hash64s("codabar|" + job.content + "|" + fmt.Sprint(sz)))
+				r.NontrivialH(odHash("codabar|" + job.content + "|" + fmt.Sprint(sz)))
 			}
 		})
 	}
@@ -1025,11 +1027,11 @@ func c03(c *fw.Ctx) {
 				for j := 0; j < 4; j++ {
 					data := c03FromAlphabet(r.Rng, c03CodabarData, 2+r.Rng.Intn(12))
 					job := c03CodabarJob(fam[i], data, fam[j])
-					if !e.c03Do(job, c03RandSize(r.Rng, 10)) {
+					if !e.c03Do(job, c03RandSize(r.Rng)) {
 						return
 					}
 					r.Tally("codabar_guard_pairs_covered")
-					r.NontrivialH(hash64s("codabar-pair|" + job.content))
+					r.NontrivialH(odHash("codabar-pair|" + job.content))
 				}
 			}
 		}
